@@ -1,14 +1,16 @@
 """C11 — effective features = own + all ancestors', whatever the order of creation."""
 import json
 
-from harness.gallina import glist, gn, gstr
+from harness import bridge, scen
+from harness.gallina import gbool, glist, gn, gstr
 from harness.props import tscommon as T
 from harness.props.tscommon import Tree, gbits, gobool, gop, gostr, gout, gstrs
 
 ID = "C11"
-COQ_TARGETS = ["TS.vo", "TSProofs.vo", "CorrC10.vo", "CorrC11.vo", "Props/C11.vo"]
+COQ_TARGETS = ["TS.vo", "TSProofs.vo", "CorrC10.vo", "Schema.vo", "Bridge.vo", "Index.vo", "IndexProofs.vo", "BridgeProofs.vo",
+               "CorrC11.vo", "Props/C11.vo"]
 PROPS_FILE = "Props/C11.v"
-CORR_IMPORTS = "Base TS CorrC10 CorrC11"
+CORR_IMPORTS = "Base TS CorrC10 Schema Bridge CorrC11"
 OPEN_SCOPES = ["string_scope", "list_scope"]
 ENTRY = "cassis.typesystem.Type._add_feature/all_features/get_feature/__call__/__attrs_post_init__, TypeSystem.create_type/create_feature"
 CASES_PER_SHARD = 160
@@ -24,6 +26,13 @@ RULE = (
     "table, get_feature per candidate name, constructor acceptance per keyword (and read/write on the new instance), outcome kinds. "
     "Oracle-only streams: the final type system after load_typesystem(ts.to_xml()), and merge_typesystems of 2-3 random type systems "
     "over a shared pool, must satisfy the same statement (all_features = own + ancestors' features, one definition per name, constructor). "
+    "Bridge (coq/Bridge.v): for every history the flattened view `flatten` of the model's final state is compared in Coq, on the "
+    "observed types, (a) with the supertype chains and the ORDERED all_features read off the implementation and (b) with what "
+    "harness/scen.schema_of computes for the declarations of the history (the schema all heap-level checks feed to their models): "
+    "exactly when the history has the shape scen.build_ts executes (all types first, then the features type by type), as a set of "
+    "features otherwise; histories that declare a feature on a built-in type or define a name twice on one chain are outside "
+    "schema_of's domain and only (a) is compared. Two further streams have exactly scen's shape: scen.gen_tspec itself (6-8 types, "
+    "reserved and awkward names, element types, a String subtype) and deep trees (chains up to depth 9, features on every level). "
     "Non-trivial: a feature is added to a type that already has a subtype or an instance."
 )
 TRUSTED = [
@@ -35,6 +44,8 @@ TRUSTED = [
     "recursion through _children) is proved equal to it under WF (C11_mechanism_agrees) and is evaluated in every correspondence case",
     "the model's initial state equals the observed TypeSystem() (extra obligation, decided by vm_compute on every run)",
     "correspondence harness harness/props/C11.py + tscommon.py; oracle = independent bookkeeping (declared supertypes + own definitions)",
+    "harness/bridge.py: reading the declarations of a history (history_to_tspec) and the flattened view off the implementation's objects "
+    "(impl_schema); harness/scen.schema_of is not trusted here: it is one of the three things compared",
 ]
 ASSUMPTIONS = [
     "feature names are not the structural attribute names type / xmiID (self and type are renamed by the code to self_ / type_)",
@@ -164,11 +175,67 @@ def generate(rng, tier):
     n_r = {"quick": 220, "thorough": 3000, "search": 2000}[tier]
     for k in range(n_r):
         yield _random_history(rng, big=(k % 3 == 0))
+    # histories of exactly the shape scen.build_ts executes (all types, then all features type by type): what every
+    # heap-level check feeds to scen.schema_of.  (a) scen.gen_tspec itself, (b) deep trees with features on every level.
+    n_s = {"quick": 90, "thorough": 1200, "search": 600}[tier]
+    for k in range(n_s):
+        yield _scen_history(rng, k)
     # type systems obtained by merging (oracle only: merging itself is C13's subject; here the merged result has to satisfy
     # the statement of C11 like any other type system)
     n_m = {"quick": 200, "thorough": 3000, "search": 2000}[tier]
     for k in range(n_m):
         yield _merge_scenario(rng)
+
+
+def _deep_tspec(rng):
+    """a tspec in scen's domain: one or two chains of depth up to 9 with side branches, a feature name at most once per
+    chain, reserved names, element types and multipleReferencesAllowed in all three states"""
+    n = rng.randint(5, 12)
+    spec, depth = [], {}
+    for i in range(n):
+        name = rng.choice(["d", "e.f"]) + ".N" + str(i)
+        if spec and rng.random() < 0.8:
+            deep = sorted(spec, key=lambda t: -depth[t["name"]])
+            par = (deep[0] if rng.random() < 0.7 else rng.choice(spec))["name"]
+            if depth[par] >= 9:
+                par = spec[0]["name"]
+        else:
+            par = rng.choice([scen.ANNOTATION, scen.TOP, scen.ANNOTATION_BASE, "uima.tcas.DocumentAnnotation"])
+        depth[name] = depth.get(par, 0) + 1
+        spec.append({"name": name, "super": par, "feats": []})
+    names = ["self", "type", "id", "k"] + ["f%d" % j for j in range(14)]
+    rng.shuffle(names)
+    users = [t["name"] for t in spec]
+    for t in spec:
+        for _ in range(rng.choice([0, 1, 1, 2, 3])):
+            if not names:
+                break
+            fn = names.pop()           # globally unique: one definition per chain
+            r = rng.choice([INT, STR, "uima.cas.FSArray", "uima.cas.FSList", "uima.cas.StringArray", scen.ANNOTATION, scen.TOP] + users[:3])
+            e = rng.choice([None, scen.ANNOTATION, scen.TOP] + users[:2]) if r == "uima.cas.FSArray" else None
+            t["feats"].append({"name": fn, "range": r, "elem": e, "multi": rng.choice([None, True, False])})
+    return spec
+
+
+def _scen_history(rng, k):
+    tspec = scen.gen_tspec(rng, n_types=rng.randint(2, 8), max_feats=4) if k % 2 == 0 else _deep_tspec(rng)
+    ops = bridge.tspec_to_ops(tspec)
+    if k % 5 == 4:                      # instances and refused / no-op operations in between leave the shape intact
+        for _ in range(3):
+            t = rng.choice(tspec)
+            extra = rng.choice([inst(t["name"]), ct(t["name"], scen.TOP), cf(t["name"], "begin", STR) if t["super"] == scen.ANNOTATION else inst(t["name"])])
+            ops.insert(rng.randint(len(tspec), len(ops)), extra)
+    users = [t["name"] for t in tspec]
+    types = users[-9:] + [scen.ANNOTATION]
+    fnames = []
+    for t in tspec:
+        for f in t["feats"]:
+            if scen.pyname(f["name"]) not in fnames:
+                fnames.append(scen.pyname(f["name"]))
+    rng.shuffle(fnames)
+    sc = _mk(ops, types=types, fn=fnames[:5] + ["begin", "nope"], kw=fnames[:5] + ["begin", "nope", "self"])
+    sc["stream"] = "scen"
+    return sc
 
 
 def _merge_scenario(rng):
@@ -224,6 +291,11 @@ def run_impl(cassis, sc):
         for f in ty.all_features:
             if not hasattr(fs0, f.name):
                 obs["rw_fail"].append(f"new {n}() has no attribute {f.name}")
+    # Bridge: the flattened view read off the implementation, and scen.schema_of on the declarations of the history
+    obs["impl_schema"] = bridge.impl_schema(ts, types)
+    tspec, dom = bridge.history_to_tspec(sc["ops"], outcomes)
+    obs["scen_dom"] = dom
+    obs["scen_schema"] = bridge.scen_schema(cassis, tspec, types) if dom["d1"] and dom["d2"] else None
     # the same statement on the type system that comes back from a descriptor (loading itself is C12's subject)
     obs["closure_xml"] = []
     if types and len(sc["ops"]) % 2 == 0:
@@ -281,6 +353,19 @@ def oracle(cassis, sc, obs):
                         f"{'an' if kw in eff else 'not an'} effective feature of {n}")
     if obs["rw_fail"]:
         return "instance: " + obs["rw_fail"][0]
+    # Bridge: scen.schema_of (independent of cassis except for the built-in table) against the implementation's own objects
+    ss = obs.get("scen_schema")
+    if ss is not None:
+        for n in obs["types"]:
+            a, b = obs["impl_schema"][n], ss.get(n)
+            if b is None or a["anc"] != b["anc"]:
+                return f"schema: ancestor chain of {n}: implementation {a['anc']}, scen.schema_of {b and b['anc']}"
+            fa, fb = a["feats"], b["feats"]
+            if not obs["scen_dom"]["d3"]:
+                fa, fb = sorted(fa, key=str), sorted(fb, key=str)
+            if fa != fb:
+                return (f"schema: effective features of {n} ({'ordered' if obs['scen_dom']['d3'] else 'as a set'}): implementation "
+                        f"{a['feats']}, scen.schema_of {b['feats']}")
     return None
 
 
@@ -306,7 +391,17 @@ def render(sc, obs):
         gstrs(sc["kw"]),
         glist([gbits(a) for a in obs["accept"]]),
     ]
-    return "mkCase " + " ".join(f"({p})" for p in parts)
+    names = obs["types"]
+    impl, ss = obs["impl_schema"], obs.get("scen_schema")
+    exact = bool(obs["scen_dom"]["d3"])
+    if ss is None:
+        scen_term = "None"
+    elif all(n in ss and ss[n] == impl[n] for n in names):
+        scen_term = "(Some si)"                   # identical to the implementation's: rendered once
+    else:
+        scen_term = f"(Some {bridge.g_schema_compact(ss, [n for n in names if n in ss])})"
+    head = "mkCase " + " ".join(f"({p})" for p in parts)
+    return f"(let si := {bridge.g_schema_compact(impl, names)} in {head} si {scen_term} {gbool(exact)})"
 
 
 def nontrivial(sc):
@@ -385,7 +480,31 @@ def distribution(scenarios, observations):
             "max_history": max(len(s["ops"]) for s in scenarios) if scenarios else 0,
             "tables_observed": sum(len(o["tables"]) for o in observations if o and "tables" in o),
             "constructor_probes": sum(len(o["accept"]) * len(s["kw"]) for s, o in zip(scenarios, observations) if o and "accept" in o),
-            "feature_after_instance": sum(1 for s in scenarios if _after_instance(s))}
+            "feature_after_instance": sum(1 for s in scenarios if _after_instance(s)),
+            "bridge": _bridge_distribution(scenarios, observations)}
+
+
+def _bridge_distribution(scenarios, observations):
+    d = {"histories": 0, "scen_exact(D1-D3)": 0, "scen_as_set(D1,D2)": 0, "outside_scen_domain": 0, "scen_shape_streams": 0,
+         "scen_differs_from_impl_order": 0, "types_compared": 0, "max_chain": 0, "max_features": 0}
+    for s, o in zip(scenarios, observations):
+        if not o or "impl_schema" not in o:
+            continue
+        d["histories"] += 1
+        d["scen_shape_streams"] += 1 if s.get("stream") == "scen" else 0
+        d["types_compared"] += len(o["types"])
+        for n in o["types"]:
+            d["max_chain"] = max(d["max_chain"], len(o["impl_schema"][n]["anc"]))
+            d["max_features"] = max(d["max_features"], len(o["impl_schema"][n]["feats"]))
+        if o["scen_schema"] is None:
+            d["outside_scen_domain"] += 1
+        elif o["scen_dom"]["d3"]:
+            d["scen_exact(D1-D3)"] += 1
+        else:
+            d["scen_as_set(D1,D2)"] += 1
+            if any(o["scen_schema"].get(n) != o["impl_schema"][n] for n in o["types"]):
+                d["scen_differs_from_impl_order"] += 1
+    return d
 
 
 def _after_instance(sc):
